@@ -281,7 +281,10 @@ class FakeListener(trio.abc.Listener):
     def __init__(self, world: "TrioWorld", sock: Any) -> None:
         self.world = world
         self.socket = sock
-        self.backlog: List[Any] = []
+        # connections that arrived while the socket was listening but nobody was accepting yet
+        self.backlog: List[Any] = list(getattr(world, "pre_backlog", []))
+        if self.backlog:
+            world.pre_backlog.clear()
         self.closed = False
         self._lot = trio.lowlevel.ParkingLot()
         world.listeners.append(self)
@@ -299,6 +302,14 @@ class FakeListener(trio.abc.Listener):
 
     async def aclose(self) -> None:
         self.closed = True
+        # connections still waiting in the accept queue are reset by the kernel when the listener goes away
+        for stream in self.backlog:
+            inner = getattr(stream, "transport_stream", stream)
+            if not self.world.finished:
+                inner.rec.refused = True
+                inner.rec.closed_at = self.world.now()
+            inner.closed = True
+        self.backlog.clear()
         self._lot.unpark_all()
         await trio.lowlevel.checkpoint()
 
@@ -561,6 +572,9 @@ class TrioWorld(WorldBase):
             return rec is not None and rec.closed_at is not None
         if kind in ("wait_idle", "call"):
             return True
+        guard = self.scenario.get("guards", {}).get(kind)
+        if guard is not None:  # scenario-defined pseudo event: enabled when its predicate holds, firing is a no-op
+            return bool(guard(self))
         raise HarnessError(f"unknown event {ev!r}")
 
     def fire(self, ev: tuple) -> None:
